@@ -169,6 +169,13 @@ class Scenario:
                             os.write(self.out.in_master, b"0123456789abcdefghij")
                             rec["got"] = type(obj.send(0)).__name__
                             obj.send(0)
+                        elif name == "request_big":
+                            # a burst that fills the Input's read buffer exactly (and one that overfills it): the read loop
+                            # reads again
+                            os.write(self.out.in_master, b"x" * st.get("size", 1024))
+                            rec["got"] = type(obj.send(0)).__name__
+                            for _ in range(3):
+                                obj.send(0)
                         elif name == "trigger":
                             cb = obj.threadsafe_event_trigger(Ev)
                             cb()
@@ -382,6 +389,9 @@ class C12(TraceCheck):
                 for kind in ("Cbreak", "Nonblocking", "Termmode"):
                     for end in (X, R):
                         yield [init, E(kind), end]
+                for size in (1023, 1024, 1025, 2048):
+                    for end in (X, R):
+                        yield [init, E("Input", sigint=1), OP("request_big", size=size), OP("request"), end]
                 # back to the mode before the Cbreak through the Termmode it returned, and a cbreak context inside that
                 for end in (X, R):
                     yield [init, E("Cbreak"), E("Back"), end, X]
